@@ -4,7 +4,7 @@ use hashbrown::HashMap;
 use p3_field::Field;
 
 use super::analysis::AluKey;
-use crate::ops::Op;
+use crate::ops::{AluOpKind, Op};
 use crate::types::WitnessId;
 
 /// Removes duplicate ALU operations by tracking a canonical output per `AluKey`.
@@ -51,7 +51,12 @@ impl Deduplicator {
     /// Returns `Some((duplicate_out, canonical_out))` when `op` duplicates an earlier ALU.
     fn detect_duplicate<F: Field>(&mut self, op: &Op<F>) -> Option<(WitnessId, WitnessId)> {
         let Op::Alu {
-            kind, a, b, c, out, ..
+            kind,
+            a,
+            b,
+            c,
+            out,
+            intermediate_out,
         } = op
         else {
             return None;
@@ -63,6 +68,13 @@ impl Deduplicator {
             b.resolve(&self.rewrite),
             c.map(|id| id.resolve(&self.rewrite)),
         );
+        // A Horner step reads its accumulator from `intermediate_out`; two steps with
+        // different accumulators compute different values and must not be merged.
+        let key = if *kind == AluOpKind::HornerAcc {
+            key.with_acc(intermediate_out.map(|id| id.resolve(&self.rewrite)))
+        } else {
+            key
+        };
 
         if let Some(&canonical) = self.seen.get(&key) {
             Some((*out, canonical))
